@@ -37,10 +37,39 @@ def param_case(case):
     return bad
 
 
+def chain_case(rng):
+    """a well-posed model for the deterministic clause: a progression chain x0 -> x1 -> ... (-> x0) whose rates vanish with their
+    origin compartment (linear or mass action), so the ODE solution stays in the positive orthant, exists on the whole grid and
+    depends on every parameter.  (The random event models of the stochastic corpus can drive a compartment negative, where a
+    saturating rate has a pole: odeint then fails and returns uninitialised rows, which are not reproducible and say nothing about
+    the property.)"""
+    nS = int(rng.randint(1, 5))
+    states = ['x%d' % i for i in range(nS)]
+    events, params = [], []
+    for k in range(nS if nS > 1 else 1):
+        p = 'p%d' % k
+        params.append(p)
+        o = states[k]
+        d = states[(k + 1) % nS]
+        mass = nS > 1 and rng.uniform() < 0.5
+        rate = ('%s*%s*%s/20' % (p, o, d)) if mass else ('%s*%s' % (p, o))
+        if nS == 1:
+            events.append((rate, [('D', o, o, '1')]))
+        elif k == nS - 1 and rng.uniform() < 0.5:
+            events.append((rate, [('D', o, o, '1')]))          # open chain: the last compartment drains
+        else:
+            events.append((rate, [('T', o, d, '1')]))
+    spec = {'states': states, 'state_decl': list(states), 'params': params, 'events': events, 'odes': [], 'derived': []}
+    x0 = rng.randint(3, 25, size=nS).astype(float)
+    return dict(spec=spec, x0=x0.tolist(), lims=[None] * nS, theta=rng.uniform(0.2, 1.5, size=len(params)).tolist(), exact=True, pre_tau=None,
+                horizon=1.0, seed=int(rng.randint(1, 2 ** 31 - 1)), closed=False, runs=2)
+
+
 def run(tier='quick', seed=0):
     r = stoch.run_raw(tier, seed)
     seen = set()
-    for k, case in enumerate(stoch.corpus(seed, 3 if tier == 'quick' else 12)):
+    rng = np.random.RandomState(seed + 31)
+    for k, case in enumerate([chain_case(rng) for _ in range(3 if tier == 'quick' else 12)]):
         key = repr(case['spec']['events'])
         if key in seen:
             continue
@@ -52,7 +81,7 @@ def run(tier='quick', seed=0):
         r['evaluations'] += 1
         if bad:
             r['failures'].append({'key': 'random-parameter case %d' % k, 'case': case, 'observed': bad[:4], 'what': 'param'})
-    r['rule'] += '; plus, per model: solve_determ and simulate_param with gamma-distributed parameters in both input forms, run twice from the same seed'
+    r['rule'] += '; plus, on seeded progression chains (1-4 compartments, linear or mass-action rates): solve_determ and simulate_param with gamma-distributed parameters in both input forms, run twice from the same seed'
     return r
 
 
